@@ -18,7 +18,7 @@ META = {
                    "antnode's Opt, the flattened PeersArgs or the evm-custom subcommand in the default-feature build, with matching arity "
                    "(SetTrue ↔ no value, Set/Append ↔ one value); the network names printed by <EvmNetwork as Display> equal the registered "
                    "subcommand names; (4) LogFormat::as_str and LogFormat::parse_from_str are inverse tables; (5) position: the network "
-                   "subcommand is emitted after every top-level option and only its own options follow it. Not decided: that each value "
+                   "subcommand is emitted after every top-level option and only its own options follow it. Also: option relations — no pair that antnode declares conflicting (clap conflicts_with) can be written together, unless both values come unchanged from antctl's own parse of the same definition or the write sits behind the other option being unset; evm-custom flags are written from the CustomNetwork field the reader stores them into. Not decided: that each value "
                    "string parses to the same typed value (clap value parsers at run time).",
     "not_decided": ["run-time parsing of each value string by clap's value parsers"],
 }
